@@ -105,6 +105,35 @@ theorem path_result_schedule_independent {κ ν} [BEq κ] [LawfulBEq κ] (val : 
 example : toPath [((2 : Int), (20 : Rat)), (0, 0), (1, 10), (0, 0)] [0, 1, 2, 0] = [some 0, some 10, some 20, some 0] := by
   decide +kernel
 
+/-- T2' (purity).  One call of `self_to_path` leaves the Path object as it was and returns `toPath` of the path's
+    k-points and THIS call's arrivals — a function of (path, collected k-points) and of nothing else. -/
+theorem selfToPath_pure {κ ν} [BEq κ] (po : PathObj κ) (arr : List (κ × ν)) :
+    selfToPath false po arr = (po, toPath arr po.pts) := by
+  unfold selfToPath
+  rw [applyMapping_mappingOf]
+
+/-- T2' (repeated calls).  Any number of run() calls on one Path object, each with its own arrival order (any
+    permutation of the points with their own values): every call returns each path point's own value. -/
+theorem repeated_runs_on_one_path {κ ν} [BEq κ] [LawfulBEq κ] (val : κ → ν) (po : PathObj κ) :
+    ∀ (runs : List (List (κ × ν))), (∀ arr ∈ runs, arr.Perm (po.pts.map (fun k => (k, val k)))) →
+      ∀ out ∈ runsOnPath false po runs, out = po.pts.map (fun k => some (val k))
+  | [], _, out, ho => by cases ho
+  | arr :: rest, h, out, ho => by
+    simp only [runsOnPath, selfToPath_pure, List.mem_cons] at ho
+    rcases ho with rfl | ho
+    · exact toPath_of_perm val po.pts arr (h arr (List.mem_cons_self ..))
+    · exact repeated_runs_on_one_path val po rest (fun a ha => h a (List.mem_cons_of_mem _ ha)) out ho
+
+/-- the seeded defect T-C12: with the mapping remembered on the Path object, a serial call (arrival = path order)
+    followed by a call whose batches arrive in another order returns the values of OTHER k-points -/
+theorem cached_mapping_breaks_second_run :
+    let po : PathObj Int := { pts := [0, 1, 2, 3], cache := none }
+    let serial : List (Int × Rat) := [(0, 0), (1, 10), (2, 20), (3, 30)]
+    let later : List (Int × Rat) := [(2, 20), (3, 30), (0, 0), (1, 10)]
+    runsOnPath false po [serial, later] = [[some 0, some 10, some 20, some 30], [some 0, some 10, some 20, some 30]] ∧
+    runsOnPath true po [serial, later] = [[some 0, some 10, some 20, some 30], [some 20, some 30, some 0, some 10]] := by
+  decide +kernel
+
 /-- T3.  `to_grid` (mean of the arrivals sitting on each grid point) does not depend on the arrival order. -/
 theorem toGrid_perm_invariant {κ ν} [BEq κ] [Field ν] (arr arr' : List (κ × ν)) (h : arr.Perm arr')
     (grid : List κ) : toGrid arr grid = toGrid arr' grid :=
